@@ -63,8 +63,35 @@ ReportBad(o) ==
   ELSE IF o.kind = "datadog" /\ Len(o["in"]) > 0 /\ ~o.out.shape_ok THEN "not-a-trace-array"
   ELSE R!BatchBad(o.kind, o["in"], o.out)
 
+\* ---- C15
+M == INSTANCE Macro
+MacroLog(l) == [k \in DOMAIN l |-> <<l[k][1], l[k][2]>>]
+OutKind(o, want) ==
+  CASE want = "panic" -> o.k = "panic"
+    [] OTHER -> o.k = "ret"
+MacroHarnessBad(o) ==      \* the generated plain function must mean what Macro.tla says the body means
+  IF MacroLog(o.plain.log) # o["case"].want.log \/ ~OutKind(o.plain.out, o["case"].want.out) THEN "generated-body" ELSE "ok"
+MacroBad(o) ==
+  LET c == o["case"]
+      own == SelectSeq(o.recs, LAMBDA r : r.name = o.want_name)
+      inner == SelectSeq(o.recs, LAMBDA r : r.name = "inner")
+      other == SelectSeq(o.recs, LAMBDA r : r.name # o.want_name /\ r.name # "inner") IN
+  IF o.traced.log # o.plain.log THEN "side-effects-differ"
+  ELSE IF o.traced.out # o.plain.out THEN "outcome-differs"
+  ELSE IF o.noparent.log # o.plain.log \/ o.noparent.out # o.plain.out THEN "outcome-differs-without-local-parent"
+  ELSE IF o.noparent.recs # 0 THEN "recorded-without-local-parent"
+  ELSE IF Len(own) # c.spans.own
+       THEN IF c.kind = "atrait" /\ c.naming = "default" /\ Len(other) = c.spans.own THEN "span-name-async-trait" ELSE "span-count-or-name"
+  ELSE IF \E k \in DOMAIN own : own[k].parent # "root" THEN "span-parent"
+  ELSE IF \E k \in DOMAIN own : [j \in DOMAIN own[k].props |-> <<own[k].props[j][1], own[k].props[j][2]>>]
+                                   # [j \in DOMAIN o.want_props |-> <<o.want_props[j][1], o.want_props[j][2]>>] THEN "span-properties"
+  ELSE IF Len(inner) # c.spans.inner \/ \E k \in DOMAIN inner : inner[k].parent # o.want_name THEN "inner-span"
+  ELSE IF other # <<>> THEN "extra-span"
+  ELSE "ok"
+
 Check(o) ==
-  CASE o.ev = "jaeger" -> <<"C20", JaegerBad(o)>>
+  CASE o.ev = "macro" -> IF MacroHarnessBad(o) # "ok" THEN <<"HARNESS", MacroHarnessBad(o)>> ELSE <<"C15", MacroBad(o)>>
+    [] o.ev = "jaeger" -> <<"C20", JaegerBad(o)>>
     [] o.ev = "decode" -> IF ClassBad(o) # "ok" THEN <<"HARNESS", ClassBad(o)>> ELSE <<"C12", DecodeBad(o)>>
     [] o.ev = "roundtrip" -> <<"C12", RoundBad(o)>>
     [] o.ev = "report" -> <<"C19", ReportBad(o)>>
